@@ -63,9 +63,11 @@ def check_boc_bytes(case):
         data = bytes.fromhex(case['raw'])
     else:
         cells = dag.build_ref(case['spec'])
-        data = bytearray(refboc.encode([cells[-1]], has_idx=case['idx'], has_crc=False, size=case['size'], off_bytes=case['off']))
+        data = bytearray(refboc.encode([cells[-1]], magic=case.get('magic', 'generic'), has_idx=case['idx'], has_crc=False,
+                                       size=case['size'], off_bytes=case['off']))
         size, off = case['size'], case['off']
-        fields = {'cells': (6, size), 'roots': (6 + size, size), 'absent': (6 + 2 * size, size), 'tot': (6 + 3 * size, off)}
+        fields = {'cells': (6, size), 'roots': (6 + size, size), 'absent': (6 + 2 * size, size), 'tot': (6 + 3 * size, off),
+                  'off_bytes': (5, 1), 'flags_size': (4, 1)}
         for name, val in case['rewrite']:
             o, w = fields[name]
             data[o:o + w] = (val % (256 ** w)).to_bytes(w, 'big')
@@ -74,8 +76,8 @@ def check_boc_bytes(case):
     return None  # raising or returning are both fine here; only the bound matters
 
 
-def ladder(h, width=2):
-    spec = [{'k': 'o', 'b': [8, 2, h], 'r': []}]
+def ladder(h, width=2, leaf=None):
+    spec = [leaf or {'k': 'o', 'b': [8, 2, h], 'r': []}]
     for k in range(1, h + 1):
         spec.append({'k': 'o', 'b': [k % 13, 2, k], 'r': [k - 1] * width})
     return spec
@@ -98,6 +100,12 @@ def enum_sharing(tier):
         yield {'spec': ladder(h), 'shape': 'ladder'}
         yield {'spec': ladder(h, 4), 'shape': 'ladder4'}
         yield {'spec': lattice(h), 'shape': 'lattice'}
+        if h <= 60:
+            # the same sharing above a cell of non-zero level (a pruned branch of mask 1 / 3 / 7, a library cell): every cell of
+            # the ladder then has level > 0 - sharing must be recognised for such cells too
+            for m in (1, 3, 7):
+                yield {'spec': ladder(h, leaf={'k': 'P', 'm': m, 's': '%08x' % h, 'd': [0, 1, 2]}), 'shape': f'ladder-on-pruned-mask{m}'}
+            yield {'spec': ladder(h, leaf={'k': 'l', 's': '%08x' % h}), 'shape': 'ladder-on-library-cell'}
 
 
 def strat_dag(tier):
@@ -111,7 +119,11 @@ BIG = [2 ** 16 - 1, 2 ** 24 - 1, 2 ** 31, 2 ** 32 - 1, 2 ** 63, 2 ** 64 - 1, 255
 def strat_boc_bytes(tier):
     rewritten = st.fixed_dictionaries({
         'spec': dag.st_ord_dag(max_nodes=6, max_len=24), 'idx': st.booleans(), 'size': st.integers(1, 4), 'off': st.integers(1, 8),
-        'rewrite': st.lists(st.tuples(st.sampled_from(['cells', 'roots', 'absent', 'tot']), st.sampled_from(BIG)).map(list), min_size=1, max_size=3)})
+        'rewrite': st.lists(st.one_of(st.tuples(st.sampled_from(['cells', 'roots', 'absent', 'tot']), st.sampled_from(BIG)),
+                                      st.tuples(st.just('off_bytes'), st.sampled_from([0, 0, 1, 9, 255])),
+                                      st.tuples(st.just('flags_size'), st.sampled_from([0x80, 0x84, 0xC1, 0xE7, 0x00, 0x08]))).map(list),
+                            min_size=1, max_size=4),
+        'magic': st.sampled_from(['generic', 'generic', 'idx', 'idx_crc'])})
     magic = st.sampled_from(['b5ee9c72', '68ff65f3', 'acc3a728'])
     raw = st.builds(lambda m, fl, rest: {'raw': m + '%02x' % fl + rest.hex()}, magic, st.integers(0, 255), st.binary(min_size=0, max_size=120))
     return st.one_of(rewritten, rewritten, raw)
